@@ -44,6 +44,9 @@ Matchers == {
   Mt("dns", [allow |-> << [name_regexp |-> "^(a|b)[.]example[.]com[.]$", type_regexp |-> "^(A|AAAA)$", class_regexp |-> "^IN$"] >>,
              deny |-> << [type_regexp |-> "^(MX|NS)$", class_regexp |-> "^(CH|HS)$"], [name_regexp |-> "^internal[.]"] >>, prefer_allow |-> TRUE]),
   Mt("clock", [after |-> "08:00:00", before |-> "17:30:00", timezone |-> "UTC"]),
+  \* a fixed offset with minutes is a documented time zone form ("+hh", "+hh:mm", "+hh:mm:ss")
+  Mt("clock", [after |-> "00:00:00", before |-> "12:00:00", timezone |-> "+05:30"]),
+  Mt("clock", [after |-> "22:00:00", before |-> "06:00:00", timezone |-> "-03:30:00"]),
   Mt("wireguard", [zero |-> 256]),
   Mt("rdp", [cookie_hash |-> "user"]),
   Mt("rdp", [cookie_ips |-> <<"10.0.0.0/8">>, cookie_ports |-> <<3389>>]) }
@@ -74,6 +77,11 @@ ProxyPassive(order) ==
    load_balancing |-> [selection |-> [policy |-> "random_choose", choose |-> 2]], _order |-> order]
 PP == [handler |-> "proxy_protocol", allow |-> <<"10.0.0.0/8", "127.0.0.1/32">>, timeout |-> 2 * S]
 TLSH == [handler |-> "tls"]
+\* connection policies: "protocols <min> [<max>]", alpn, ciphers, curves, default_sni
+TLSHP == [handler |-> "tls",
+          connection_policies |-> << [alpn |-> <<"h2", "http/1.1">>, protocol_min |-> "tls1.2", protocol_max |-> "tls1.3",
+                                      curves |-> <<"x25519", "secp256r1">>, default_sni |-> "a.example.com"],
+                                     [protocol_min |-> "tls1.3", cipher_suites |-> <<"TLS_ECDHE_RSA_WITH_AES_128_GCM_SHA256">>] >>]
 \* rates are floating-point numbers: 16777217 = 2^24 + 1 has no single-precision representation
 Throttle == [handler |-> "throttle", read_bytes_per_second |-> 1000, read_burst_size |-> 500, total_read_bytes_per_second |-> 16777217,
              total_read_burst_size |-> 2500, latency |-> S]
@@ -84,7 +92,7 @@ SubRoute(t) == [handler |-> "subroute",
                (IF t THEN [matching_timeout |-> 2 * S] ELSE [handler |-> "subroute"])
 Terminal == { Echo, ProxySimple, ProxyFull("active_first"), ProxyFull("passive_first"), ProxyFullU("active_first", "mixed"), ProxyFullU("passive_first", "twodial"), ProxyPassive("passive_first"), ProxyPassive("active_first"),
               Socks5, SubRoute(FALSE), SubRoute(TRUE) }
-Prefixes == { <<>>, <<PP>>, <<TLSH>>, <<Throttle>>, <<Tee>>, <<PP, TLSH>> }
+Prefixes == { <<>>, <<PP>>, <<TLSH>>, <<TLSHP>>, <<Throttle>>, <<Tee>>, <<PP, TLSH>> }
 HandlerLists == { p \o <<t>> : p \in Prefixes, t \in Terminal }
 
 \* ---- routes, servers, configurations ----
